@@ -23,6 +23,10 @@ Family (bounded-exhaustive; every member is one program, linked by wild --thread
            one) x {bl, b} x {non-PIE, PIE}                                                     = 40.
   a16      the main layout with every .text section (pads and code) 16-byte aligned, global callee,
            20 placements x {bl, b} x {non-PIE, PIE}                                            = 80.
+  deep     [caller object][callee object] adjacent (both orders); the callee is defined deep inside its
+           object: 130 MiB of that object's own retained .text lie between the function and the object's
+           edge facing the caller - the object as a whole is near, the symbol is not
+           x {bl, b} x {non-PIE, PIE}                                                          = 8.
   control  CONDBR19 (b.al) / TSTBR14 (tbz w0,#0) have no thunks in the ABI: only adjacent
            placements, in range by construction (local/global at 0>1 1>0 3>4 4>3, align32/custom at
            0>1 1>0) x 2 forms x 2 outputs = 48. A rejection of a control is counted, never judged.
@@ -80,6 +84,8 @@ def dist_class(spec):
         d = 128 * MiB + spec["e"]
         inside = d <= (128 * MiB - 4 if fwd else 128 * MiB)
         return f"{'+' if fwd else '-'}edge-{'in' if inside else 'out'}"
+    if spec["family"] == "deep":        # adjacent objects; the callee's own object holds the distance
+        return "+far" if spec["caller"] < spec["callee"] else "-far"
     if spec["family"] == "ncall":       # the call sites are in front of .text: what counts is the callee's depth
         blocks = spec_blocks(spec)
         d = T.nominal_distance([("caller",)] + [b for b in blocks if b[0] != "caller"], 32)
@@ -96,6 +102,8 @@ def spec_blocks(spec):
         pad = ("pad", 128 * MiB - 16 + spec["e"])
         return [("caller",), pad, ("callee",)] if spec["caller"] < spec["callee"] else \
                [("callee",), pad, ("caller",)]
+    if spec["family"] == "deep":
+        return [("caller",), ("callee",)] if spec["caller"] < spec["callee"] else [("callee",), ("caller",)]
     return T.blocks_for(PADS_LIGHT if spec.get("light") else PADS, spec["caller"], spec["callee"])
 
 
@@ -140,6 +148,13 @@ def enumerate_ncall():
             for p in range(5) for f in ("bl", "b") for o in OUTS]
 
 
+def enumerate_deep():
+    """The callee is defined deep inside a big object (130 MiB of the object's own .text between the
+    function and the object's edge that faces the caller, which sits in the adjacent object): the
+    object as a whole is near, the symbol is not."""
+    return [member("deep", "deep", f, a, b, o) for f in ("bl", "b") for (a, b) in ((0, 1), (1, 0)) for o in OUTS]
+
+
 def enumerate_a16():
     """The main layout with every section - the pads' and the code objects' `.text` - 16-byte aligned
     (the alignment GCC gives AArch64 functions at -O2): a global callee at every placement."""
@@ -148,9 +163,9 @@ def enumerate_a16():
 
 
 def quick_members():
-    """30 members, the same generators over the light pad vector PADS_LIGHT (2, 2, 130, 2, 2 MiB: one pad
+    """32 members, the same generators over the light pad vector PADS_LIGHT (2, 2, 130, 2, 2 MiB: one pad
     beyond the branch range, outputs of ~134 MiB): every kind x form once on a placement across the big
-    pad (direction, depth and output kind rotate with the cell index), six edge members, two ncall and two
+    pad (direction, depth and output kind rotate with the cell index), six edge members, two deep, two ncall and two
     a16 members, every kind once on a near placement; last, two members of the thorough family proper
     (318 MiB, several thunk blocks). A run that hits its wall cap drops members from the end."""
     far = [(0, 4), (4, 0), (1, 3), (3, 1)]
@@ -166,6 +181,8 @@ def quick_members():
         out.append(member("edge", k, f, a, b, OUTS[i % 2], e))
     out.append(member("ncall", "global-from-align32", "bl", 0, 4, "exe", light=True))
     out.append(member("ncall", "global-from-custom", "b", 4, 3, "pie", light=True))
+    out.append(member("deep", "deep", "bl", 0, 1, "exe"))
+    out.append(member("deep", "deep", "b", 1, 0, "pie"))
     out.append(member("a16", "global-a16", "bl", 0, 3, "pie", light=True))
     out.append(member("a16", "global-a16", "b", 4, 1, "exe", light=True))
     for ki, k in enumerate(T.KINDS):
@@ -426,7 +443,7 @@ def main():
                             "samples": stats["samples"], "exhaustive": False}
             chk.finish()
         if chk.thorough:
-            members = enumerate_main() + enumerate_edge() + enumerate_ncall() + enumerate_a16() + enumerate_control()
+            members = enumerate_main() + enumerate_edge() + enumerate_deep() + enumerate_ncall() + enumerate_a16() + enumerate_control()
             cap = float(os.environ.get("C11_CAP_S", 780))
             GRACE = 60
         else:
@@ -479,10 +496,11 @@ def main():
                       "elsewhere) x 6 callee kinds x {bl,b} x {exe,pie}, three call sites each; edge: pad 128MiB-16+e, "
                       "e=-20..8 step 4 x {global,local} x {bl,b} x {fwd,back} x {exe,pie}; ncall: call sites in a non-primary "
                       "part x 5 callee positions x {bl,b} x {exe,pie}; a16: main layout, all .text 16-byte aligned, global callee, "
-                      "20 placements x {bl,b} x {exe,pie}; control: CONDBR19/TSTBR14 on adjacent placements. "
+                      "20 placements x {bl,b} x {exe,pie}; deep: callee 130 MiB deep inside its own object, caller adjacent, "
+                      "both orders x {bl,b} x {exe,pie}; control: CONDBR19/TSTBR14 on adjacent placements. "
                       if chk.thorough else
                       "quick: the same generators over the light pad vector (2,2,130,2,2 MiB): per kind x form one "
-                      "placement across the big pad (direction, depth and output kind rotate), six edge members, two ncall "
+                      "placement across the big pad (direction, depth and output kind rotate), six edge members, two deep members, two ncall "
                       "and two a16 members, per kind one near placement; plus two members of the thorough family. ")
                      + "A member is non-trivial when the probe's walk passed through a thunk (T) and/or a PLT stub (P), "
                        "or when it was judged a violation; distinct = distinct member ids"),
